@@ -131,7 +131,18 @@ def gen_cases(ctx):
     # every verb once with every parameter kind
     for vi, verb in enumerate(restgen.VERBS):
         i = g.iface(name="Client", nmethods=2, verb=verb, struct=True, dict=True, nscalar=2)
+        # interface-level headers on every verb (DELETE has no defaults of its own)
+        i["headers"] = [("X-Tenant-Id", "t42"), ("Accept", "text/plain")] if vi % 2 == 0 else [("X-Trace", "on")]
         cases.append(make_case("v%d" % vi, i, calls_for(g, i, 3)))
+    # struct fields that are unexported (read through getters) AND pointer-typed, nil and non-nil, on both query verbs
+    for vi, verb in enumerate(("GET", "DELETE")):
+        i = g.iface(name="Client", nmethods=1, verb=verb, struct=True, where="same", ctx=True)
+        st = i["structs"][0]
+        st["fields"] = [{"name": "pageNo", "type": "int", "ptr": True, "alias": None, "json": None},
+                        {"name": "kind", "type": "string", "ptr": True, "alias": "k2", "json": None},
+                        {"name": "Name", "type": "string", "ptr": True, "alias": None, "json": None},
+                        {"name": "user_name", "type": "string", "ptr": False, "alias": None, "json": None}]
+        cases.append(make_case("g%d" % vi, i, calls_for(g, i, 6)))
     for k in range(ctx.n(150, 1500)):
         i = g.iface()
         kw = {}
